@@ -5,6 +5,7 @@ import (
 	"go/ast"
 	"go/token"
 	"go/types"
+	"reflect"
 	"sort"
 	"strings"
 
@@ -136,7 +137,9 @@ func ruleC20Atomic(c *ctx.Ctx, r *core.Reporter) {
 		r.Undecided("Store", cachePkg, "not found")
 		return
 	}
-	iTest := stmtIndex(c, st.Body, func(s string, _ ast.Stmt) bool { return strings.HasPrefix(s, "if bc.isTestPackage(importPath)") && strings.Contains(s, "return false") })
+	iTest := stmtIndex(c, st.Body, func(s string, _ ast.Stmt) bool {
+		return strings.HasPrefix(s, "if bc.isTestPackage(importPath)") && strings.Contains(s, "return false")
+	})
 	iTemp := stmtIndex(c, st.Body, func(s string, _ ast.Stmt) bool { return strings.Contains(s, "os.CreateTemp(") })
 	iSer := stmtIndex(c, st.Body, func(s string, _ ast.Stmt) bool { return strings.HasPrefix(s, "if err := bc.serialize(") })
 	iClose := stmtIndex(c, st.Body, func(s string, x ast.Stmt) bool {
@@ -188,7 +191,9 @@ func ruleC20Atomic(c *ctx.Ctx, r *core.Reporter) {
 	// Load: test exclusion first
 	ld := c.FuncDecl(cachePkg, "BuildCache.Load")
 	if ld != nil {
-		iT := stmtIndex(c, ld.Body, func(s string, _ ast.Stmt) bool { return strings.HasPrefix(s, "if bc.isTestPackage(importPath)") && strings.Contains(s, "return false") })
+		iT := stmtIndex(c, ld.Body, func(s string, _ ast.Stmt) bool {
+			return strings.HasPrefix(s, "if bc.isTestPackage(importPath)") && strings.Contains(s, "return false")
+		})
 		iO := stmtIndex(c, ld.Body, func(s string, _ ast.Stmt) bool { return strings.Contains(s, "os.Open(") })
 		r.Check(iT >= 0 && iO > iT, "load:test-package-first", c.Pos(ld.Pos()), "Load returns for the package under test before opening any file")
 	}
@@ -212,6 +217,28 @@ func ruleC20Stale(c *ctx.Ctx, r *core.Reporter) {
 		return strings.HasPrefix(s, "if srcModTime.After(buildTime)") && strings.Contains(s, "true, nil")
 	})
 	iRead := stmtIndex(c, ds.Body, func(s string, _ ast.Stmt) bool { return strings.Contains(s, "c.Read(") })
+	// integrity: gzip verifies its checksum only when a read reaches the end of the stream; the gob decoder
+	// stops after the last value it needs, so the reader has to be drained before the archive is accepted
+	{
+		zr := ""
+		for _, m := range findGoPattern(ds.Body, `µzr, µerr := gzip.NewReader(µr)`) {
+			zr = m.Env["µzr"]
+		}
+		drained := false
+		for _, pat := range []string{`io.Copy(io.Discard, µz)`, `io.ReadAll(µz)`, `io.Copy(ioutil.Discard, µz)`} {
+			for _, m := range findGoPattern(ds.Body, pat) {
+				if m.Env["µz"] == zr && zr != "" {
+					// its error must leave the function
+					for _, is := range enclosingIfStmtsWithInit(ds.Body, m.Node) {
+						if hasReturn(is.Body) {
+							drained = true
+						}
+					}
+				}
+			}
+		}
+		r.Check(drained, "decode:checksum-verified", c.Pos(ds.Pos()), "after the payload is decoded the gzip reader is read to its end and an error (checksum or length mismatch, truncation) makes the load fail")
+	}
 	r.Check(iTime >= 0 && iCmp > iTime && iRead > iCmp, "stale:compare-before-read", c.Pos(ds.Pos()), fmt.Sprintf("deserialize decodes the build time (stmt %d), returns old=true if the sources are newer (%d) and only otherwise decodes the payload (%d)", iTime, iCmp, iRead))
 	// the time that is compared on load is the time that was handed to Store: it reaches the encoder as the
 	// plain parameter (no rounding, no truncation, no clock read) and is compared as decoded
@@ -286,7 +313,9 @@ func ruleC20Stale(c *ctx.Ctx, r *core.Reporter) {
 	iErr := stmtIndex(c, ld.Body, func(s string, _ ast.Stmt) bool {
 		return strings.HasPrefix(s, "if err != nil") && strings.Contains(s, "return false") && !strings.Contains(s, "os.IsNotExist")
 	})
-	iOld := stmtIndex(c, ld.Body, func(s string, _ ast.Stmt) bool { return strings.HasPrefix(s, "if old") && strings.Contains(s, "return false") })
+	iOld := stmtIndex(c, ld.Body, func(s string, _ ast.Stmt) bool {
+		return strings.HasPrefix(s, "if old") && strings.Contains(s, "return false")
+	})
 	iDes := stmtIndex(c, ld.Body, func(s string, _ ast.Stmt) bool { return strings.Contains(s, "bc.deserialize(") })
 	trues := 0
 	lastTrue := false
@@ -439,11 +468,39 @@ func ruleC20Codec(c *ctx.Ctx, r *core.Reporter) {
 			}
 			r.Check(rebuilt[f], "codec:rebuilt:"+f, c.Pos(uf.Pos()), fmt.Sprintf("ast.File.%s is cleared before encoding and reconstructed after decoding", f))
 		}
+		// comments: only the groups attached to a node can be reconstructed from the tree. The free-standing
+		// ones (a directive separated from its declaration) must travel with the file and be merged back
+		{
+			fileParam := firstParamName(pf)
+			wholesale := cleared["Comments"]
+			merges := false
+			ufParam := firstParamName(uf)
+			ast.Inspect(uf.Body, func(n ast.Node) bool {
+				if call, ok := n.(*ast.CallExpr); ok && exprStr(call.Fun) == "append" {
+					for _, a := range call.Args[1:] {
+						if exprStr(a) == ufParam+".Comments" {
+							merges = true
+						}
+					}
+				}
+				return true
+			})
+			_ = fileParam
+			r.Check(!wholesale && merges, "codec:free-standing-comments-carried", c.Pos(pf.Pos()), fmt.Sprintf("prepareFile does not drop all comments (cleared wholesale: %v) and unpackFile merges the decoded free-standing groups with the ones attached to nodes (merges: %v)", wholesale, merges))
+		}
 		r.Check(strings.Contains(nodeString(c, rd.Body), "unpackFile(f)"), "codec:unpack-called", c.Pos(rd.Pos()), "Read reconstructs every decoded file")
 		// the reconstruction walk must not prune: comments hang below import specs, fields, declarations ...
 		prunes := ""
 		ast.Inspect(uf.Body, func(n ast.Node) bool {
-			fl, ok := n.(*ast.FuncLit)
+			// only the visitor callbacks of the reconstruction walk (ast.Inspect / ast.Walk), not e.g. a sort comparator
+			call, isCall := n.(*ast.CallExpr)
+			if !isCall || len(call.Args) != 2 {
+				return true
+			}
+			if sel, isSel := call.Fun.(*ast.SelectorExpr); !isSel || exprStr(sel.X) != "ast" || (sel.Sel.Name != "Inspect" && sel.Sel.Name != "Walk") {
+				return true
+			}
+			fl, ok := call.Args[1].(*ast.FuncLit)
 			if !ok {
 				return true
 			}
@@ -507,4 +564,32 @@ func ruleC20Codec(c *ctx.Ctx, r *core.Reporter) {
 		})
 		r.Check(ok, "caller:uses-only-on-hit", c.Pos(host.Pos()), "the Sources object handed to Load is used only inside `if buildCache.Load(...) { ... }`: a failed or partial load is discarded")
 	}
+}
+
+// enclosingIfStmtsWithInit lists if statements whose Init or Cond contains node.
+func enclosingIfStmtsWithInit(root ast.Node, node ast.Node) []*ast.IfStmt {
+	var out []*ast.IfStmt
+	ast.Inspect(root, func(n ast.Node) bool {
+		if is, ok := n.(*ast.IfStmt); ok {
+			in := func(x ast.Node) bool {
+				return x != nil && !reflect.ValueOf(x).IsNil() && x.Pos() <= node.Pos() && node.End() <= x.End()
+			}
+			if (is.Init != nil && in(is.Init)) || in(is.Cond) {
+				out = append(out, is)
+			}
+		}
+		return true
+	})
+	return out
+}
+
+func hasReturn(n ast.Node) bool {
+	found := false
+	ast.Inspect(n, func(x ast.Node) bool {
+		if _, ok := x.(*ast.ReturnStmt); ok {
+			found = true
+		}
+		return true
+	})
+	return found
 }
